@@ -33,6 +33,8 @@ type session struct {
 	armed     bool // crash points enabled
 	opIdx     int
 	opKind    string
+	opHuge    bool // the running save exceeds the page-writer buffer
+	opWrites  int  // write notifications of the running operation so far
 	opSyncs   int
 	point     int
 	pending   []*image
@@ -199,7 +201,11 @@ func (s *session) takeImages(kind string, permille int, file string) {
 					lost[i] = r.ch.force(2, b2i(pats[n%len(pats)][i])) == 1
 				}
 			} else {
-				switch r.ch.draw(8) {
+				mode := r.ch.draw(8)
+				if kind == "write" && n == 0 && mode >= 4 {
+					mode = 0 // a killed process: the file stays exactly as written so far
+				}
+				switch mode {
 				case 0: // everything reached the disk
 				case 1:
 					for i := range lost {
@@ -300,7 +306,14 @@ func (s *session) onWrite(f *os.File) {
 		return
 	}
 	s.r.probe("write-notification", 1)
-	s.takeImages("write", s.r.b.Cfg.PTake/2+1, filepath.Base(f.Name()))
+	p := s.r.b.Cfg.PTake/2 + 1
+	if s.opHuge && s.opKind == "save" {
+		// a flush in the middle of a batch larger than the page-writer buffer
+		p = 500
+		s.r.probe("write-notification-in-oversized-save", 1)
+	}
+	s.opWrites++
+	s.takeImages("write", p, filepath.Base(f.Name()))
 }
 
 func b2i(b bool) int {
@@ -398,6 +411,7 @@ func (s *session) runOps(ops []op) {
 			return
 		}
 		s.opIdx, s.opKind, s.opSyncs = i, o.K, 0
+		s.opHuge, s.opWrites = o.Huge, 0
 		if r.env != nil && r.env.J != nil {
 			r.env.J.Step("L%d op %d %s", s.level, i, o.String())
 		}
